@@ -514,7 +514,7 @@ static inline TextFamily make_LW() {
 }
 
 // LH: huge containers (beyond any bulk-copy threshold): n = 2^k-1, 2^k, 2^k+1 children for k = 16..20
-static inline TextFamily make_LH(unsigned maxk) {
+static inline TextFamily make_LH(unsigned maxk, bool objects = true) {
   TextFamily f;
   auto nsp = std::make_shared<std::vector<unsigned>>();
   for (unsigned k = 16; k <= maxk; k++)
@@ -524,11 +524,11 @@ static inline TextFamily make_LH(unsigned maxk) {
   f.meta.group = "LH";
   f.meta.rule = "huge containers with n = 2^k-1, 2^k, 2^k+1 children for k = 16.." + std::to_string(maxk) + " (objects: k <= 19) in 3 shapes: array of integers, array of short strings, object of distinct keys; every element read back (keyed lookups of objects with more than 5000 members: the first 64, the last 64 and every (n/64)-th key)";
   f.meta.chunk = 1;
-  f.gen = [nsp](uint64_t idx, std::string& out) {
+  f.gen = [nsp, objects](uint64_t idx, std::string& out) {
     unsigned shape = (unsigned)(idx % 3);
     unsigned n = (*nsp)[idx / 3];
     out.clear();
-    if (shape == 2 && n > (1u << 19) + 1) return false;
+    if (shape == 2 && (!objects || n > (1u << 19) + 1)) return false;
     out.reserve((size_t)n * 12 + 2);
     out = shape == 2 ? "{" : "[";
     for (unsigned i = 0; i < n; i++) {
